@@ -1,0 +1,142 @@
+//! Read-only views and seams used by the external verification harness.
+//! Only compiled with `--cfg ax_verif`; never part of a normal build.
+
+use std::cell::RefCell;
+
+use crate::axecutor::Axecutor;
+use crate::helpers::trace::TraceVariant;
+
+/// Plain copy of one memory area.
+#[derive(Debug, Clone, PartialEq, Eq)]
+pub struct AreaView {
+    pub start: u64,
+    pub length: u64,
+    pub access: u32,
+    pub name: Option<String>,
+    pub data: Vec<u8>,
+}
+
+/// Kind of a trace entry.
+#[derive(Debug, Clone, Copy, PartialEq, Eq, Hash)]
+pub enum TraceKind {
+    Call,
+    Return,
+    Jump,
+}
+
+/// Plain copy of one trace entry.
+#[derive(Debug, Clone, PartialEq, Eq, Hash)]
+pub struct TraceView {
+    pub instr_ip: u64,
+    pub target: u64,
+    pub kind: TraceKind,
+    pub level: i64,
+    pub count: u64,
+}
+
+thread_local! {
+    static FD_PROVIDER: RefCell<Option<Box<dyn FnMut(u64) -> u64>>> = RefCell::new(None);
+}
+
+/// Install (or remove) the provider that decides pipe descriptor numbers on this thread.
+/// The provider receives the descriptor the implementation drew and returns the one to use.
+pub fn set_fd_provider(p: Option<Box<dyn FnMut(u64) -> u64>>) {
+    FD_PROVIDER.with(|f| *f.borrow_mut() = p);
+}
+
+/// Seam for the pipe handler: pass-through unless a provider is installed.
+pub fn fd_or(drawn: u64) -> u64 {
+    FD_PROVIDER.with(|f| match f.borrow_mut().as_mut() {
+        Some(p) => p(drawn),
+        None => drawn,
+    })
+}
+
+impl Axecutor {
+    pub fn verif_rflags(&self) -> u64 {
+        self.state.rflags
+    }
+
+    pub fn verif_set_rflags(&mut self, v: u64) {
+        self.state.rflags = v;
+    }
+
+    pub fn verif_finished(&self) -> bool {
+        self.state.finished
+    }
+
+    pub fn verif_executed(&self) -> u64 {
+        self.state.executed_instructions_count
+    }
+
+    pub fn verif_max_instructions(&self) -> Option<u64> {
+        self.state.max_instructions
+    }
+
+    pub fn verif_code_end_addr(&self) -> u64 {
+        self.code_end_addr
+    }
+
+    pub fn verif_stack_top(&self) -> u64 {
+        self.stack_top
+    }
+
+    pub fn verif_hooks_running(&self) -> bool {
+        self.hooks.running
+    }
+
+    pub fn verif_hooks_display(&self) -> String {
+        self.hooks.to_string()
+    }
+
+    pub fn verif_areas(&self) -> Vec<AreaView> {
+        self.state.memory.iter().map(|a| a.verif_view()).collect()
+    }
+
+    pub fn verif_trace_entries(&self) -> Vec<TraceView> {
+        self.state
+            .trace
+            .iter()
+            .map(|e| TraceView {
+                instr_ip: e.instr_ip,
+                target: e.target,
+                kind: match e.variant {
+                    TraceVariant::Call => TraceKind::Call,
+                    TraceVariant::Return => TraceKind::Return,
+                    TraceVariant::Jump => TraceKind::Jump,
+                },
+                level: e.level as i64,
+                count: e.count,
+            })
+            .collect()
+    }
+
+    pub fn verif_call_stack_raw(&self) -> Vec<u64> {
+        self.state.call_stack.clone()
+    }
+
+    pub fn verif_syscall_state_debug(&self) -> String {
+        format!("{:?}", self.state.syscalls)
+    }
+
+    pub fn verif_symbol_table(&self) -> Vec<(u64, String)> {
+        let mut v: Vec<(u64, String)> = self
+            .symbol_table
+            .iter()
+            .map(|(a, n)| (*a, n.clone()))
+            .collect();
+        v.sort();
+        v
+    }
+
+    pub fn verif_registers_raw(&self) -> Vec<(String, u64)> {
+        let mut v: Vec<(String, u64)> = self
+            .state
+            .registers
+            .iter()
+            .map(|(r, x)| (r.name(), *x))
+            .collect();
+        v.sort();
+        v
+    }
+}
